@@ -346,7 +346,7 @@ func writeEvidence(dir, prop, tier string, results []*HarnessResult, eng *Engine
 		"explanation":        "states = explored symbolic paths; transitions = SSA instructions executed symbolically; every assertion, panic condition and bound is a separate solver query",
 		"programs":           len(results), "disagreements_checked": asserts,
 		"init_skips":   initSkips(results),
-		"trusted_base": []string{"gosym engine (validated per run by replaying completed symbolic paths natively: traces_validated_against_impl)", "z3 4.8.12 / z3 5.1 / cvc5 1.0", "go/ssa of x/tools v0.29.0", "summaries of math/bits, math/big, uint256 kernels, keccak (uninterpreted)"},
+		"trusted_base": []string{"gosym engine (validated per run by replaying completed symbolic paths natively: traces_validated_against_impl)", "z3 4.8.12 / z3 5.1 / cvc5 1.0", "go/ssa of x/tools v0.29.0", "summaries of math/bits, math/big, uint256 kernels, sort.Slice, bytes.Compare, keccak and standard precompile kernels (uninterpreted; modexp gas function and body real in ModexpGas/ModexpWork)"},
 	}
 	ev := map[string]interface{}{
 		"property_id": prop, "tier": tier, "seed": 0, "level": level, "coverage": cov,
